@@ -253,6 +253,34 @@ pub fn rsdp<const P: u8>() {
     kani::cover!(true, "REACHED");
 }
 
+/// generic user-defined table: created with a symbolic declared length class, then grown through
+/// typed appends and the sink interface (C13 has the full operation algebra; this ties C01/C02 to it)
+pub fn sdt<const P: u8>(via_sink: bool) {
+    use acpi_tables::sdt::Sdt;
+    use acpi_tables::AmlSink;
+    let oem = sym_oem();
+    let sig: [u8; 4] = kani::any();
+    let mut t = Sdt::new(sig, 40, kani::any(), oem.0, oem.1, oem.2);
+    let v: u32 = kani::any();
+    let w: u16 = kani::any();
+    if via_sink {
+        (&mut t as &mut dyn AmlSink).byte(kani::any());
+        (&mut t as &mut dyn AmlSink).dword(v);
+    } else {
+        t.append(w);
+        t.append_slice(&v.to_le_bytes());
+        t.write_u16(38, w);
+    }
+    let r: Rec<52> = Rec::of(&t);
+    let e: Exp<52> = Exp::new();
+    if P == 4 {
+        kani::cover!(true, "REACHED");
+        return;
+    }
+    fixed_verdicts::<P, 52>(&r, &e);
+    kani::cover!(true, "REACHED");
+}
+
 // ------------------------------------------------------------------------------ FADT
 /// expected values of the FADT fields the builder API can set (everything else is zero)
 #[derive(Clone, Copy)]
